@@ -972,6 +972,7 @@ def c06(ctx):
         scen.append(sc)
     scen += corpus_scenarios("C06")
     decisions.update(model_decisions(ctx, scen))
+    library_reuse_family(ctx, "C06: a source no change applies to comes back as it is, with no error, whatever was applied before")
     run_scenarios(ctx, scen, [[], ["print"], ["diff"], ["print", "si"], ["sg"]], {"unmatched", "stdout", "exit"}, post)
     triples = []
     for sc in scen:
@@ -1326,6 +1327,7 @@ BYTE_DECORATIONS = [
 
 @prop("C07")
 def c07(ctx):
+    library_reuse_family(ctx, "C07: what Apply returns without an error parses as Go, on every call")
     def post(ctx, sc, opts, infos, pred, obs, work):
         contents = []
         by_prov = {i["provided"]: i for i in infos}
@@ -1613,6 +1615,7 @@ def c14(ctx):
                     "input": {"patches": sc.patches, "files": sc.files, "flags": flags_of(opts), "args": targs},
                     "observed": {"exit": obs["exit"], "stderr": obs["stderr"][-1500:]}, "problems": found})
     c14_repeat(ctx)
+    library_reuse_family(ctx, "C14: a parsed patch is immutable")
     # the same files named in several forms, through excluded directories, in different orders
     arg_forms_family(ctx, "a file's result depends on how and where it was named among the arguments")
     # the same concurrent calls under the Go race detector: a parsed patch that is written to while it is applied
@@ -1655,6 +1658,73 @@ def c14(ctx):
             ctx.violation("the bytes an Apply call returned changed while the same parsed patch was applied to other sources: each call's result "
                           "is its own", {"input": {"patches": c["patches"], "src": c["src"]},
                                          "reproduce": "f, _ := patch.Parse(..); a, _ := f.Apply(\"a.go\", src); f.Apply(\"b.go\", other); a is no longer what it was"})
+
+# --- the library with one parsed patch reused over a sequence of sources (shared by C06, C07, C08, C14, C16) ------------
+REPLACE_ERR = ("@@\nvar x expression\n@@\n-foo(x)\n+bar.x\n", "package a\n\nfunc f() {\n\tfoo(g(1))\n}\n")
+REUSE_SEQS = [
+    # (patch, sources): sources that are rewritten, that make the replacement fail, that the patch does not match, again
+    (REPLACE_ERR[0], ["package a\n\nfunc ok() { foo(name) }\n", REPLACE_ERR[1], "package a\n\nfunc un() { zzz(1) }\n",
+                      "package a\n\nfunc ok() { foo(name) }\n", REPLACE_ERR[1], "package q\n", "package a\n\nfunc ok2() { foo(other) }\n"]),
+    (MISFIT[0][0], ["package a\n\nfunc ok() {\n\tz := foo(2)\n\t_ = z\n}\n", MISFIT[0][1], "package a\n\nfunc un() { zzz(1) }\n",
+                    MISFIT[0][1], "package a\n\nfunc ok() {\n\tz := foo(2)\n\t_ = z\n}\n"]),
+    ("@@\n@@\n-foo(...)\n+bar = ...\n", ["package a\n\nfunc f() {\n\tfoo(1)\n}\n", "package a\n\nfunc f() {\n\tfoo()\n}\n",
+                                         "package a\n\nfunc un() { zzz(1) }\n", "package a\n\nfunc f() {\n\tfoo(1)\n}\n"]),
+    ("@@\nvar x expression\n@@\n-isZero(x)\n+x == T{}\n", ["package a\n\nfunc f() bool { return isZero(y) }\n",
+                                                           "package a\n\nfunc f() {\n\tif isZero(y) {\n\t}\n}\n",
+                                                           "package a\n\nfunc f() {\n\tif isZero(y) {\n\t}\n}\n", "package a\n\nfunc un() { zzz(1) }\n"]),
+    ("@@\nvar x expression\n@@\n-foo(x)\n+bar(x)\n", ["package a\n\nfunc f() { foo(1) }\n", "package a\n\nfunc {\n", "package a\n\nfunc un() { zzz(1) }\n",
+                                                      "// Code generated by x. DO NOT EDIT.\n\npackage a\n\nfunc g() { foo(2) }\n",
+                                                      "// Package a.\n// @generated\npackage a\n\nfunc h() { foo(3) }\n", "package a\n\nfunc f() { foo(1) }\n"]),
+]
+
+def library_reuse_family(ctx, clause):
+    """one parsed patch applied to a sequence of sources (each twice in a row) against a freshly parsed patch for every call:
+    what a call returns (bytes, error or not, which file the error names) does not depend on the calls before it, and every
+    call returns"""
+    d = ctx.scratch("apiseq")
+    pth = os.path.join(d, "in.jsonl")
+    with open(pth, "w") as f:
+        for k, (p, srcs) in enumerate(REUSE_SEQS):
+            f.write(json.dumps({"id": f"seq{k}", "patch": p, "srcs": srcs}) + "\n")
+    r = run([ctx.harness, "apiseq", "-inputs", pth], timeout=600)
+    if r.returncode != 0:
+        ctx.broken("harness", "zzverif apiseq failed: " + r.stderr[-1500:])
+        return
+    for line in r.stdout.splitlines():
+        o = json.loads(line)
+        k = int(o["id"][3:])
+        p, srcs = REUSE_SEQS[k]
+        ctx.evaluations += 1
+        ctx.count("library_reuse_sequences")
+        ctx.nontrivial.add("reuse:" + o["id"])
+        if o.get("hang"):
+            ctx.violation(f"library: a call of Apply on a parsed patch that was used before did not return within 10 s ({clause})",
+                          {"input": {"patch": p, "sources": srcs}, "reproduce": "f, _ := patch.Parse(..); for each source: f.Apply(name, src) twice"})
+            continue
+        if o.get("parse_err"):
+            continue
+        def cls(st):
+            return ("panic" if st.get("panic") else "err" if st.get("err") else "ok", st.get("out", ""))
+        for j, src in enumerate(srcs):
+            fresh = o["fresh"][j] if j < len(o.get("fresh", [])) else {}
+            for rep in (0, 1):
+                idx = 2 * j + rep
+                sh = o["shared"][idx] if idx < len(o.get("shared", [])) else {}
+                bad = None
+                if cls(sh) != cls(fresh):
+                    bad = f"call {idx + 1} (source {j + 1}{', again' if rep else ''}) returns {cls(sh)[0]} / {sh.get('out', '')[:60]!r}, a freshly parsed patch {cls(fresh)[0]} / {fresh.get('out', '')[:60]!r}"
+                elif sh.get("err") and f"s{j}.go" not in sh["err"] and f"s{j}.go" in fresh.get("err", ""):
+                    bad = f"call {idx + 1}: the error does not name its own file: {sh['err'][:160]!r}"
+                elif sh.get("err") and any(f"s{m}.go" in sh["err"] for m in range(len(srcs)) if m != j):
+                    bad = f"call {idx + 1}: the error names another call's file: {sh['err'][:160]!r}"
+                if bad:
+                    ctx.violation(f"library: the result of Apply depends on earlier calls on the same parsed patch: {bad} ({clause})",
+                                  {"input": {"patch": p, "sources": srcs}, "shared": o["shared"], "fresh": o["fresh"],
+                                   "reproduce": "f, _ := patch.Parse(..); for each source: f.Apply(name, src) twice; compare with a new Parse per call"})
+                    break
+            else:
+                continue
+            break
 
 # --- argument forms (shared by C12 and C14) ----------------------------------
 ARGFORM_TREE = {"a.go": "f", "sub": {"b.go": "f", ".hid": {"f.go": "f"}}, "testdata": {"c.go": "f", "cases": {"g.go": "f"}},
@@ -1761,7 +1831,6 @@ def arg_forms_family(ctx, what):
                                "reproduce": "create the tree (each .go file: package x; func f() { foo(N) }), cd into it ($ROOT = its absolute path), gopatch -p p.patch <flags> <args>"})
 
 # --- C16 -------------------------------------------------------------------
-REPLACE_ERR = ("@@\nvar x expression\n@@\n-foo(x)\n+bar.x\n", "package a\n\nfunc f() {\n\tfoo(g(1))\n}\n")
 
 @signature("write-fault")
 def sig_write_fault(sig, what, payload):
@@ -1816,6 +1885,7 @@ def c16(ctx):
         return out
     scen += corpus_scenarios("C16")
     run_scenarios(ctx, scen, [[], ["print"], ["diff"]], {"write", "stdout", "exit", "report", "unmatched"}, post)
+    library_reuse_family(ctx, "C16: a failure is reported by the call it belongs to, and by no other")
     # the library: a program that computes the results for several files with one parsed patch and writes them afterwards must
     # not end up with a file made of two results (no error would tell it)
     lib_cases = [{"id": f"lib{i}", "patches": c["patches"], "src": c["src"]} for i, c in enumerate(good) if len(c.get("patches", [])) == 1]
@@ -2778,6 +2848,7 @@ def mutate_bytes(rng, s):
 
 @prop("C08")
 def c08(ctx):
+    library_reuse_family(ctx, "C08: no call crashes or hangs, also after a call that failed or panicked inside")
     ctx.rule = ("patches: (a) a table of truncated bodies (every prefix shape that starts a parameter list, block, literal, comment), "
                 "(b) every prefix (step 7 bytes) of valid generated patches, (c) byte-mutated valid patches (insert/delete/replace with "
                 "brackets, quotes, '...', '@@', NUL, 0xff), (d) a table of well-formed but ill-typed patches (expression metavariable in a "
